@@ -596,7 +596,12 @@ class Interp(Engine):
                 c = self.truthy(self.ev(node.test), node.test)
                 if not self.branch(c, "while"):
                     raise PathEnd()
-            self.exec_block(node.body)
+            self.iter_stack.append(dict(self.st.heap))
+            self.iter_by_ord[ordinal] = dict(self.st.heap)
+            try:
+                self.exec_block(node.body)
+            finally:
+                self.iter_stack.pop()
 
         ws = self.discover_written(node, run_body_once)
         invs = [parse_expr(s) for s in spec.get("invariant", [])]
@@ -642,6 +647,8 @@ class Interp(Engine):
             if is_for:
                 self.assign(node.target, zipv.item(self, i) if zipv is not None else self.from_term(seq[i], elem), node)
             self.iter_stack.append(dict(self.st.heap))     # state at the start of this iteration, for iter0(...)
+            saved_ord = self.iter_by_ord.get(ordinal)
+            self.iter_by_ord[ordinal] = dict(self.st.heap)
             try:
                 try:
                     self.exec_block(node.body)
@@ -922,7 +929,7 @@ class Interp(Engine):
         if isinstance(op, ast.Mod):
             if ka == "str":
                 args = b.items if isinstance(b, TupV) else [b]
-                return SV(Val.strv(so.fmt(z3.StringVal("%%:%d" % getattr(node, "lineno", 0)), z3.Concat(z3.Unit(a.term), so.seq_of([self.str_arg(x, node) for x in args])) if args else z3.Unit(a.term))), "str")
+                return SV(Val.strv(so.fmt(z3.StringVal("%"), z3.Concat(z3.Unit(a.term), so.seq_of([self.str_arg(x, node) for x in args])) if args else z3.Unit(a.term))), "str")
             if ka == "int" and kb == "int":
                 return SV(Val.intv(self.as_int(a) % self.as_int(b)), "int")
         if isinstance(op, (ast.Div, ast.Pow, ast.FloorDiv)):
